@@ -1,6 +1,7 @@
 import Proofs.SqlBuildProj
 import Proofs.SqlFixedPoint
 import Proofs.SqlAttrNames
+import Proofs.SqlBuildTotal
 
 set_option linter.unusedSimpArgs false
 
@@ -308,6 +309,10 @@ structure MM.Closed (u : UC) (m : MM) : Prop where
   rows : ∀ c ∈ m.classes, ∀ r ∈ c.rows, r.length = c.attrs.length
   /-- within a class no two attribute names coincide after upper-casing (`define_class` accepts no other class) -/
   attrNames : ∀ c ∈ m.classes, attrNamesOk u c.attrs = true
+  /-- no attribute name and no association key has the form `__x__`: such names collide with Python object internals
+      (open finding `build-builtin:dunder-identifier`) and are outside the model -/
+  plainAttrs : ∀ c ∈ m.classes, ∀ a ∈ c.attrs, isDunder a.1 = false
+  plainKeys : ∀ a ∈ m.assocs, ∀ k ∈ a.src.keys ++ a.tgt.keys, isDunder k = false
 
 /-- `items` writes every class of `m` once (in the order `S`), its associations (in the order `A`), and for each class
     its identifiers and rows in their own order -/
@@ -366,7 +371,33 @@ theorem buildOk_of_presents (u : UC) (m : MM) (hm : m.Closed u) (items : List It
     (stmts : List Stmt) (hp : Presents u m items S A) (hs : itemsStmts u items = some stmts) : BuildOk u stmts := by
   have hdecl := fun {c : ClassM} (hc : c ∈ m.classes) => declared_of_class u m items S A stmts hp hs hc
   have hcls := fun {b : ClassB} (hb : b ∈ newTables stmts) => class_of_declared u m items S A stmts hp hs hb
-  refine ⟨?_, ?_, ?_, ?_, ?_⟩
+  refine ⟨?_, ?_, ?_, ?_, ?_, ?_⟩
+  · -- no `__x__` identifier in an attribute position
+    unfold touchesInternals
+    rw [List.any_eq_false]
+    intro st hmem
+    rw [Bool.not_eq_true, List.any_eq_false]
+    intro n hn
+    rw [Bool.not_eq_true]
+    obtain ⟨it, hit, hst⟩ := mem_itemsStmts u items stmts hs _ hmem
+    have hof := hp.fromModel it hit
+    cases it with
+    | cls k a =>
+      simp only [Item.stmt, Option.some.injEq] at hst; subst hst
+      obtain ⟨c, hc, _, rfl⟩ := hof
+      simp only [Stmt.pyNames, List.map_map, List.mem_map, Function.comp] at hn
+      obtain ⟨a0, ha0, rfl⟩ := hn
+      exact hm.plainAttrs c hc a0 ha0
+    | assoc r s t =>
+      simp only [Item.stmt, Option.some.injEq] at hst; subst hst
+      obtain ⟨a, ha, _, rfl, rfl⟩ := hof
+      exact hm.plainKeys a ha n hn
+    | index _ _ _ => simp only [Item.stmt, Option.some.injEq] at hst; subst hst; simp [Stmt.pyNames] at hn
+    | inst k a v =>
+      simp only [Item.stmt] at hst
+      split at hst
+      · simp only [Option.some.injEq] at hst; subst hst; simp [Stmt.pyNames] at hn
+      · cases hst
   · -- distinct kinds
     unfold KindsDistinct
     rw [(proj_items u items stmts hs).1, hp.tables, List.map_map]
